@@ -325,6 +325,41 @@ def _atof64_check(rep, mod):
     import_obligations(rep, 'R-ATOF64', it, run)
     if guarded_outptr_rule(rep, 'R-ATOF64', f, fname, 1) == 0:
         raise AnalysisBroken('%s never stores the end pointer' % fname)
+    atof_shapes(rep, mod, fname, 'R-ATOF64-SHAPE')
+    rep.floor('R-ATOF64-SHAPE:post', 18)
+
+
+def atof_shapes(rep, mod, fname, rule):
+    """End pointer on literals of fixed shape (ISO C 7.22.1.3: the subject sequence is a non-empty digit sequence optionally
+    containing a point, then optionally an exponent part e/E [sign] digits): every character of the shape is a whole class
+    (any digit, any letter that is neither e nor E ...), the end pointer must stand behind the longest prefix of that form."""
+    from absval import PtrVal
+    f = need(mod, fname)
+    D, X = (48, 57), (103, 122)          # any digit; any of g..z (no digit, no point, no exponent marker, no hex digit)
+    shapes = [('digit point: "1."', [D, (46, 46)], 2),
+              ('digit point letter: "1.x"', [D, (46, 46), X], 2),
+              ('digit point digit letter: "1.5x"', [D, (46, 46), D, X], 3),
+              ('digit point exponent: "1.e5"', [D, (46, 46), (101, 101), D], 4),
+              ('digit exponent: "1E5"', [D, (69, 69), D], 3),
+              ('digit letter: "1x"', [D, X], 1)]
+    for (label, classes, end) in shapes:
+        it = InterpF(mod)
+
+        def setup(run, st, env, names, args, sps, classes=classes):
+            n = len(classes)
+            o = st.new_obj('param', Lin(n + 1), 'arg0', {'desc': 'literal of %d characters' % n, 'cstr_len': Lin(n)})
+            for k, (lo, hi) in enumerate(classes):
+                b = st.fresh_int(8, False, 'ch%d' % k)
+                st.cons.add_le(lo, b.u)
+                st.cons.add_le(b.u, hi)
+                st.conv[('cstrbyte', o.id, Lin(k).key())] = b
+            args[0] = PtrVal(o.id, Lin(0))
+        run = Run7(it, [])
+        post = [dict(name='end pointer behind the longest numeric prefix of %s' % label,
+                     then=['ghost_end_set_post == 1', 'ghost_end_arg_post == 0', 'ghost_end_off_post == %d' % end])]
+        run.run(f.name, spec7(setup=setup, extents={'arg1': '8'}, post=post, outptrs={1: 'end'}))
+        obs = [o for o in summarize(it, run) if o['kind'] == 'post']
+        rep.add_absint(rule, obs)
 
 
 def float_acc_inst(f, a):
